@@ -129,3 +129,134 @@ Proof. destruct checks; simpl; lia. Qed.
 Lemma vnc_stall_w :
   blocked_writes false (subst_checks 100 (cfg_w false) [] [120; 36; 72; 69; 73; 71; 72; 84; 120; 36; 87; 73; 68; 84; 72; 120]) = 5%nat.
 Proof. vm_compute. reflexivity. Qed.
+
+(* ------------------------------------------------------------------ a deadline per response (notes/fix_C20_4.diff)
+   httpWrite with the proposed repair of F20b: the write loop of rfbWriteExact plus a deadline for the whole response,
+   HTTP_RESPONSE_WAIT_FACTOR * rfbMaxClientWait after its start.  [total] = time since the start of the response (it is
+   carried from one write of the response to the next), [waited] = consecutive time without progress as before.  Here a
+   select() that reports the socket writable costs time too ([DReady dt]: after dt ms). *)
+Inductive dev :=
+| DWrote (k : Z) | DZero | DErr
+| DReady (dt : Z)    (* EAGAIN, then select() reports the socket writable after dt ms *)
+| DTimeout           (* EAGAIN, then select() times out *)
+| DSelErr.
+
+Definition dl_left (slice deadline total : Z) : Z := Z.min slice (deadline - total).
+
+Fixpoint wxd_tail (fuel : nat) (timeout slice deadline waited total : Z) : option (wres * Z) :=
+  match fuel with
+  | O => None
+  | S k =>
+      let left := dl_left slice deadline total in
+      if left <=? 0 then Some (WGiveUp, total) else
+      let w := waited + left in
+      let t := total + left in
+      if w >=? timeout then Some (WGiveUp, t) else wxd_tail k timeout slice deadline w t
+  end.
+
+Fixpoint wxd_loop (sched : list dev) (timeout slice deadline len waited total : Z) : option (wres * Z) :=
+  if len <=? 0 then Some (WOk, total) else
+  match sched with
+  | [] => wxd_tail (Z.to_nat (deadline / slice) + 2) timeout slice deadline waited total
+  | DWrote k :: r => if k <=? 0 then Some (WRet0, total) else wxd_loop r timeout slice deadline (len - k) waited total
+  | DZero :: _ => Some (WRet0, total)
+  | DErr :: _ => Some (WFail, total)
+  | DReady dt :: r =>
+      let left := dl_left slice deadline total in
+      if left <=? 0 then Some (WGiveUp, total) else
+      wxd_loop r timeout slice deadline len 0 (total + Z.max 0 (Z.min dt left))
+  | DTimeout :: r =>
+      let left := dl_left slice deadline total in
+      if left <=? 0 then Some (WGiveUp, total) else
+      let w := waited + left in
+      let t := total + left in
+      if w >=? timeout then Some (WGiveUp, t) else wxd_loop r timeout slice deadline len w t
+  | DSelErr :: _ =>
+      if dl_left slice deadline total <=? 0 then Some (WGiveUp, total) else Some (WFail, total)
+  end.
+
+Lemma wxd_tail_bound : forall fuel timeout slice deadline waited total,
+  0 < slice -> Z.max 0 (deadline - total) + slice <= Z.of_nat fuel * slice ->
+  exists t, wxd_tail fuel timeout slice deadline waited total = Some (WGiveUp, t) /\ total <= t <= Z.max total deadline.
+Proof.
+  induction fuel as [|k IH]; intros timeout slice deadline waited total Hs Hf.
+  - exfalso. change (Z.of_nat 0) with 0 in Hf. lia.
+  - cbn [wxd_tail]. cbv zeta. unfold dl_left.
+    destruct (Z.min slice (deadline - total) <=? 0) eqn:E0. { exists total. split; auto. lia. }
+    destruct (waited + Z.min slice (deadline - total) >=? timeout). { eexists. split; eauto. lia. }
+    rewrite Nat2Z.inj_succ, Z.mul_succ_l in Hf.
+    assert (Hk : slice <= Z.of_nat k * slice).
+    { destruct k as [|k']; [exfalso; change (Z.of_nat 0) with 0 in Hf; lia|].
+      rewrite Nat2Z.inj_succ, Z.mul_succ_l. pose proof (Zle_0_nat k'). nia. }
+    destruct (IH timeout slice deadline (waited + Z.min slice (deadline - total)) (total + Z.min slice (deadline - total)) Hs)
+      as [t [H1 H2]]; [lia|].
+    exists t. split; auto. lia.
+Qed.
+
+Lemma wxd_fuel_ok : forall slice deadline total, 0 < slice -> 0 <= total ->
+  Z.max 0 (deadline - total) + slice <= Z.of_nat (Z.to_nat (deadline / slice) + 2) * slice.
+Proof.
+  intros slice deadline total Hs Ht. rewrite Nat2Z.inj_add. change (Z.of_nat 2) with 2.
+  destruct (Z_lt_le_dec deadline 0) as [Hn|Hp].
+  - pose proof (Zle_0_nat (Z.to_nat (deadline / slice))). nia.
+  - rewrite Z2Nat.id by (apply Z.div_pos; lia).
+    pose proof (Z.mul_succ_div_gt deadline slice Hs). nia.
+Qed.
+
+(* C20_send_time_bounded: with the repair, for every schedule (every behaviour of the peer, incl. the slow reader of
+   F20b), every length, time-out and slice, a write started [total] ms into the response ends not later than the
+   deadline (or at once, if the deadline has already passed) *)
+Theorem send_time_bounded : forall sched timeout slice deadline len waited total,
+  0 < slice -> 0 <= total ->
+  exists r t, wxd_loop sched timeout slice deadline len waited total = Some (r, t) /\ total <= t <= Z.max total deadline.
+Proof.
+  induction sched as [|e rest IH]; intros timeout slice deadline len waited total Hs Ht; cbn [wxd_loop].
+  - destruct (len <=? 0). { exists WOk, total. split; auto. lia. }
+    destruct (wxd_tail_bound (Z.to_nat (deadline / slice) + 2) timeout slice deadline waited total Hs) as [t [H1 H2]].
+    { apply wxd_fuel_ok; auto. }
+    exists WGiveUp, t. auto.
+  - destruct (len <=? 0). { exists WOk, total. split; auto. lia. }
+    destruct e; cbv zeta; unfold dl_left.
+    + destruct (k <=? 0). { exists WRet0, total. split; auto. lia. }
+      apply IH; auto.
+    + exists WRet0, total. split; auto. lia.
+    + exists WFail, total. split; auto. lia.
+    + destruct (Z.min slice (deadline - total) <=? 0) eqn:E0. { exists WGiveUp, total. split; auto. lia. }
+      destruct (IH timeout slice deadline len 0 (total + Z.max 0 (Z.min dt (Z.min slice (deadline - total)))) Hs) as [r [t [H1 H2]]]; [lia|].
+      exists r, t. split; auto. lia.
+    + destruct (Z.min slice (deadline - total) <=? 0) eqn:E0. { exists WGiveUp, total. split; auto. lia. }
+      destruct (waited + Z.min slice (deadline - total) >=? timeout). { eexists; eexists. split; eauto. lia. }
+      destruct (IH timeout slice deadline len (waited + Z.min slice (deadline - total)) (total + Z.min slice (deadline - total)) Hs) as [r [t [H1 H2]]]; [lia|].
+      exists r, t. split; auto. lia.
+    + destruct (Z.min slice (deadline - total) <=? 0); eexists; eexists; split; eauto; lia.
+Qed.
+
+(* a whole response: its writes one after the other, each continuing at the time the previous one ended; [None] =
+   a write failed (nothing more is written: httpWriteFailed) *)
+Fixpoint response_time (writes : list (list dev * Z)) (timeout slice deadline total : Z) : Z :=
+  match writes with
+  | [] => total
+  | (sched, len) :: rest =>
+      match wxd_loop sched timeout slice deadline len 0 total with
+      | Some (WOk, t) => response_time rest timeout slice deadline t
+      | Some (_, t) => t
+      | None => total
+      end
+  end.
+
+(* one response holds rfbHttpCheckFds for at most the deadline, however many writes it consists of and whatever the
+   peer does *)
+Theorem response_time_bounded : forall writes timeout slice deadline total,
+  0 < slice -> 0 <= total -> total <= response_time writes timeout slice deadline total <= Z.max total deadline.
+Proof.
+  induction writes as [|[sched len] rest IH]; intros timeout slice deadline total Hs Ht; cbn [response_time]; [lia|].
+  destruct (send_time_bounded sched timeout slice deadline len 0 total Hs Ht) as [r [t [H1 H2]]]. rewrite H1.
+  destruct r; try lia. specialize (IH timeout slice deadline t Hs ltac:(lia)). lia.
+Qed.
+
+(* the slow reader of F20b under the repair: one byte per slice, 70000 bytes, rfbMaxClientWait 20 s: given up at 60 s *)
+Fixpoint ddrip (n : nat) : list dev :=
+  match n with O => [] | S k => DTimeout :: DReady 0 :: DWrote 1 :: ddrip k end.
+Example slow_reader_fixed_w :
+  wxd_loop (ddrip 100) 20000 5000 60000 70000 0 0 = Some (WGiveUp, 60000).
+Proof. vm_compute. reflexivity. Qed.
